@@ -13,8 +13,7 @@ use bitcoin::constants::ChainHash;
 use bitcoin::script::ScriptBuf;
 use lightning::ln::msgs::{
 	DecodeError, GossipTimestampFilter, Ping, Pong, QueryChannelRange, ReplyShortChannelIdsEnd,
-	Shutdown, Stfu, TxAbort, TxComplete, TxRemoveInput, TxRemoveOutput, UnsignedNodeAnnouncement,
-	UpdateFee,
+	Shutdown, Stfu, TxAbort, TxComplete, TxRemoveInput, TxRemoveOutput, UpdateFee,
 };
 use lightning::ln::types::ChannelId;
 use lightning::util::ser::{LengthReadable, Writeable};
@@ -216,59 +215,6 @@ fn c13_stfu_strict_bool() {
 	assert!(o == Outcome::Accepted || o == Outcome::Invalid);
 	kani::cover!(o == Outcome::Accepted, "accepted");
 	kani::cover!(o == Outcome::Invalid, "rejected out-of-range bool");
-}
-
-/// node_announcement contents with an empty feature vector and an address section of up to
-/// `ADDR` bytes (symbolic `addrlen` <= ADDR, symbolic address bytes, total length concrete): the
-/// decoder never panics, never accepts addresses that overrun `addrlen`, and whatever it accepts
-/// re-encodes to exactly the input (addresses, unknown-descriptor excess and trailing excess data
-/// all preserved), i.e. the advertised address-section length is the consumed one.
-fn node_announcement_addresses<const ADDR: usize, const T0: u8, const T1: u8>() {
-	const N: usize = 96;
-	let mut buf: [u8; N] = kani::any();
-	buf[0] = 0;
-	buf[1] = 0; // flen = 0
-	// flen(2) timestamp(4) node_id(33) rgb(3) alias(32) addrlen(2) = 76
-	kani::assume(buf[74] == 0 && (buf[75] as usize) <= ADDR);
-	// the descriptor type bytes are concrete per harness (CBMC unrolls the hostname descriptor's
-	// UTF-8 validation loops on every path that a symbolic type byte leaves open); a descriptor can
-	// only start at offset 76 or, after an IPv4 address, at 83. Everything else is symbolic.
-	buf[76] = T0;
-	buf[83] = T1;
-	let len = 76 + ADDR;
-	let mut r = ArrR::<N>::new(buf, len);
-	match UnsignedNodeAnnouncement::read_from_fixed_length_buffer(&mut r) {
-		Ok(m) => {
-			assert!(r.pos == len);
-			let mut w = ArrW::<N>::new();
-			okw(m.write(&mut w));
-			assert!(w.len == len);
-			assert!(same_prefix(&w.buf, &buf, len));
-			kani::cover!(m.addresses.len() == 1, "one address accepted");
-			kani::cover!(m.addresses.len() == 0 && m.excess_address_data.len() > 0, "unknown descriptor kept as excess");
-			core::mem::forget(m);
-		},
-		Err(e) => {
-			assert!(r.pos <= len);
-			kani::cover!(true, "rejected");
-			core::mem::forget(e);
-		},
-	}
-}
-#[kani::proof]
-#[kani::unwind(35)]
-fn c13_node_announcement_addresses_ipv4_unknown() {
-	node_announcement_addresses::<8, 1, 0>();
-}
-#[kani::proof]
-#[kani::unwind(35)]
-fn c13_node_announcement_addresses_ipv4_ipv4() {
-	node_announcement_addresses::<8, 1, 1>();
-}
-#[kani::proof]
-#[kani::unwind(35)]
-fn c13_node_announcement_addresses_unknown() {
-	node_announcement_addresses::<8, 9, 1>();
 }
 
 /// gossip_timestamp_filter: chain_hash(32) first_timestamp(4) timestamp_range(4).
